@@ -114,7 +114,7 @@ def _classpath():
 def tlc(module, cfg=None, workers=None, env=None, timeout=1500, extra=(), simulate=None, coverage=False, cwd=SPEC, deadlock=None, heap="4g", dfs=False):
     """Run TLC on spec/<module>.tla. Returns TlcResult. Raises Broken on tool failure."""
     meta = workdir("tlc")
-    cmd = ["java", "-XX:+UseParallelGC", "-Xmx" + heap]
+    cmd = ["java", "-XX:+UseParallelGC", "-Xss512m", "-Xmx" + heap]
     if dfs:
         cmd.append("-Dtlc2.tool.queue.IStateQueue=StateDeque")
     cmd += ["-cp", _classpath(), "tlc2.TLC", "-noGenerateSpecTE", "-metadir", meta,
@@ -145,7 +145,8 @@ def tlc(module, cfg=None, workers=None, env=None, timeout=1500, extra=(), simula
             break
         if attempt == 2:
             shutil.rmtree(meta, ignore_errors=True)
-            raise Broken("TLC failed on %s (rc=%s):\n%s" % (module, p.returncode, p.stdout[-2500:]))
+            errs = "\n".join(x[:300] for x in p.stdout.splitlines() if x.startswith("Error") or "xception" in x)[:1500]
+            raise Broken("TLC failed on %s (rc=%s):\n%s\n...\n%s" % (module, p.returncode, errs, p.stdout[-800:]))
     shutil.rmtree(meta, ignore_errors=True)
     r.wall = time.time() - t
     m = re.search(r"(\d+) states generated, (\d+) distinct states found", r.out)
